@@ -138,7 +138,7 @@ const INPUT_NAMES: [&str; 4] = ["Alpha", "Bravo", "Cedar", "Delta"];
 const MEMBER_NAMES: [&str; 4] = ["toAlpha", "toBravo", "toCedar", "toDelta"];
 
 /// World for an input-type graph: edges[i][j] from type i to type j.
-fn graph_world(edges: &[Vec<Vec<Edge>>], one_of: &[bool]) -> Option<World> {
+fn graph_world(edges: &[Vec<Vec<Edge>>], one_of: &[bool], single_var: bool) -> Option<World> {
     let n = edges.len();
     let mut inputs = Vec::new();
     for i in 0..n {
@@ -168,8 +168,11 @@ fn graph_world(edges: &[Vec<Vec<Edge>>], one_of: &[bool]) -> Option<World> {
         mutation: None,
         subscription: None,
     };
-    let vars: Vec<VarDef> = (0..n).map(|i| VarDef { name: format!("v{}", i), ty: TypeExpr::plain(Named::Input(i), false), default: None }).collect();
-    let args: Vec<(String, ArgValue)> = (0..n).map(|i| (format!("arg{}", i), ArgValue::Var(format!("v{}", i)))).collect();
+    // only the first type is a variable's own type when `single_var` (types reached but not used as
+    // a variable type are collected by a different path in the generator)
+    let nv = if single_var { 1 } else { n };
+    let vars: Vec<VarDef> = (0..nv).map(|i| VarDef { name: format!("v{}", i), ty: TypeExpr::plain(Named::Input(i), false), default: None }).collect();
+    let args: Vec<(String, ArgValue)> = (0..nv).map(|i| (format!("arg{}", i), ArgValue::Var(format!("v{}", i)))).collect();
     let doc = Document { defs: vec![Definition::Op(Operation { kind: OpKind::Query, name: Some("Probe".into()), shorthand: false, vars, sel: vec![Selection::Field(FieldSel { alias: None, name: "probe".into(), args, sel: vec![] })] })] };
     Some(World { schema, doc })
 }
@@ -222,7 +225,7 @@ fn breakable(edges: &[Vec<Vec<Edge>>]) -> bool {
 }
 
 fn graph_item(edges: &[Vec<Vec<Edge>>], one_of: &[bool], label: &str) -> Option<Item> {
-    let world = graph_world(edges, one_of)?;
+    let world = graph_world(edges, one_of, crate::tape::fnv(label.as_bytes()) % 2 == 0)?;
     let valid = breakable(edges);
     let mut base = base_from_world(world, Opts::default(), Delivery::Library);
     let mut expects = Vec::new();
@@ -310,7 +313,7 @@ pub fn run(report: &mut Report, replay: Option<&Value>) {
     let mut jobs = Vec::new();
     let mut idx = Vec::new();
     for (gi, (edges, one_of, _)) in graphs.iter().enumerate() {
-        if let Some(w) = graph_world(edges, one_of) {
+        if let Some(w) = graph_world(edges, one_of, crate::tape::fnv(graphs[gi].2.as_bytes()) % 2 == 0) {
             let sdl = w.schema.to_sdl(&SdlStyle::default());
             let q = render_document(&w.doc, &w.schema, &QueryStyle { trivia: None });
             jobs.push(Job { schema_path: scratch.file(&sdl, "graphql"), query: QuerySrc::Text(q), opts: Opts::default(), cwd: None });
